@@ -12,6 +12,8 @@ ASSUMPTIONS = ['values of 993+ characters and more chunks than carriers are outs
 CARRIERS = [48, 62, 123, 124, 125]
 
 
+THREADS = True
+
 def text(rng, n, mode):
     if mode == 'digits':
         return ''.join(rng.choice('0123456789') for _ in range(n))
